@@ -70,6 +70,8 @@ type pxWorld struct {
 	deaf map[string]bool
 	// blockGate, if set, parks the address-rewriting callback for destination "block" until closed
 	blockGate chan struct{}
+	// onDisconnect, if set, runs inside the proxy's disconnect callback (after the bookkeeping)
+	onDisconnect func(id string)
 }
 
 func newPxWorld(ser bool, rewrite goat.RpcIntercepter) *pxWorld {
@@ -98,7 +100,11 @@ func newPxWorld(ser bool, rewrite goat.RpcIntercepter) *pxWorld {
 		func(id string, reason error) {
 			w.mu.Lock()
 			w.disconnects = append(w.disconnects, id)
+			f := w.onDisconnect
 			w.mu.Unlock()
+			if f != nil {
+				f(id)
+			}
 		})
 	go func() {
 		w.Proxy.Serve()
@@ -809,4 +815,6 @@ func execC16WriteFault(t *testing.T, c C16WriteFault) (v Verdict) {
 	return
 }
 
-func TestC16WriteFault(t *testing.T) { checkProp(t, "C16", "write-fault", genC16WriteFault, execC16WriteFault) }
+func TestC16WriteFault(t *testing.T) {
+	checkProp(t, "C16", "write-fault", genC16WriteFault, execC16WriteFault)
+}
